@@ -56,13 +56,18 @@ type advInsts struct {
 	// allocated for one row more than the forest needs: numbers just beyond the
 	// geometry of the forest are positions of the allocation
 	fullR1 *utreexo.MapPollard
+	// a partial forest that, before the deletions of the construction history, was asked to remember
+	// (by verification) every internal node and root of the forest with its then true hash: what it
+	// remembers of them must not make it accept those hashes once they are no longer true
+	remInt *utreexo.MapPollard
 }
 
 var advAPIs = []string{"Verify", "Pollard.Verify", "MapPollard.Verify/63", "MapPollard.Verify/0",
 	"MapPollard.VerifyPartialProof/full", "MapPollard.VerifyPartialProof/fromroots",
 	"Pollard.Verify@after-undo", "MapPollard.Verify/63@after-undo",
 	"MapPollard.Verify/63+remember", "MapPollard.Verify/fromroots+remember", "MapPollard.VerifyPartialProof/fromroots+remember",
-	"MapPollard.Verify/rows+1", "MapPollard.VerifyPartialProof/rows+1"}
+	"MapPollard.Verify/rows+1", "MapPollard.VerifyPartialProof/rows+1",
+	"MapPollard.Verify/remembered-nodes", "MapPollard.VerifyPartialProof/remembered-nodes"}
 
 // buildAdv constructs real instances in the abstract state of the line: add n
 // leaves, then delete the dead ones with the specification's canonical proof.
@@ -163,6 +168,12 @@ func buildAdv(sy *Symb, st *Step, exp *Expect) (*advInsts, error) {
 		}
 		return nil
 	}
+	// the instance that remembered internal nodes before the deletions
+	if ri := buildRemInt(sy, st, leaves, dels, proof); ri != nil {
+		if got := sy.Ts(ri.GetRoots()); eqStrs(got, exp.Roots) {
+			a.remInt = ri
+		}
+	}
 	pu := utreexo.NewAccumulator()
 	if err := detour(&pu); err == nil {
 		a.pollardU = &pu
@@ -172,6 +183,56 @@ func buildAdv(sy *Symb, st *Step, exp *Expect) (*advInsts, error) {
 		a.full63U = mu
 	}
 	return a, nil
+}
+
+// buildRemInt: K leaves, a remembering verification of every node above the bottom row (true hash,
+// canonical proof), then the deletions of the construction history.
+func buildRemInt(sy *Symb, st *Step, leaves []utreexo.Leaf, dels []Hash, proof utreexo.Proof) *utreexo.MapPollard {
+	K := uint64(st.K)
+	if K == 0 {
+		return nil
+	}
+	m := newMap(false, 63)
+	lv := make([]utreexo.Leaf, len(leaves))
+	for i := range lv {
+		lv[i] = utreexo.Leaf{Hash: leaves[i].Hash, Remember: true}
+	}
+	ok := true
+	pan := protect(func() {
+		if m.Modify(lv, nil, utreexo.Proof{}) != nil {
+			ok = false
+			return
+		}
+		R := treeRows(K)
+		var term func(r uint8, i uint64) string
+		term = func(r uint8, i uint64) string {
+			if r == 0 {
+				return leafTerm(int(i))
+			}
+			return "(" + term(r-1, 2*i) + "," + term(r-1, 2*i+1) + ")"
+		}
+		isRoot := func(p RI) bool { return K>>p.Row&1 == 1 && p.Idx == (K>>(p.Row+1))<<1 }
+		for r := uint8(1); r <= R; r++ {
+			for i := uint64(0); (i+1)<<r <= K; i++ {
+				p := RI{r, i}
+				var pf []Hash
+				for q := p; !isRoot(q); q = (RI{q.Row + 1, q.Idx / 2}) {
+					pf = append(pf, sy.H(term(q.Row, q.Idx^1)))
+				}
+				// (a refusal is no concern of this construction: the instance is then simply a partial forest)
+				m.Verify([]Hash{sy.H(term(r, i))}, utreexo.Proof{Targets: []uint64{enc(p, R)}, Proof: pf}, true)
+			}
+		}
+		if len(dels) > 0 {
+			if m.Verify(dels, proof, true) != nil || m.Modify(nil, dels, proof) != nil {
+				ok = false
+			}
+		}
+	})
+	if pan != "" || !ok {
+		return nil
+	}
+	return m
 }
 
 // call runs one API on one input; accepted reports a nil error.
@@ -211,6 +272,16 @@ func (a *advInsts) call(api int, hs []Hash, tg []uint64, pf []Hash) (accepted bo
 		err = a.fullR1.Verify(hs, proof, false)
 	case 12:
 		err = a.fullR1.VerifyPartialProof(tg, hs, pf, false)
+	case 13:
+		if a.remInt == nil {
+			return false
+		}
+		err = a.remInt.Verify(hs, proof, false)
+	case 14:
+		if a.remInt == nil {
+			return false
+		}
+		err = a.remInt.VerifyPartialProof(tg, hs, pf, false)
 	}
 	return err == nil
 }
@@ -449,6 +520,26 @@ func (r *Runner) advSoundness(l *Line) lineResult {
 							res.fails = append(res.fails, Fail{Props: []string{"C03"}, Inst: advAPIs[api], Cat: "unsound",
 								What: "a false claim was accepted", Exp: "reject", Got: "accept", Case: sl.desc.Load()})
 							mu.Unlock()
+						}
+					}
+				}
+			}
+			// hashes that WERE true before the deletions of the construction history (every node of the
+			// all-live forest), claimed at the position they had
+			if wi == 2%nw && st.K > 0 {
+				K := uint64(st.K)
+				R0 := treeRows(K)
+				var term func(r uint8, i uint64) string
+				term = func(r uint8, i uint64) string {
+					if r == 0 {
+						return leafTerm(int(i))
+					}
+					return "(" + term(r-1, 2*i) + "," + term(r-1, 2*i+1) + ")"
+				}
+				for r0 := uint8(0); r0 <= R0; r0++ {
+					for i := uint64(0); (i+1)<<r0 <= K; i++ {
+						if ri, ok := dec(enc(RI{r0, i}, R0), R0); ok {
+							run([]claim{{r.sy.H(term(r0, i)), enc(ri, R)}})
 						}
 					}
 				}
